@@ -615,7 +615,7 @@ func genC07(e *emitter, r *rng, tier string) {
 
 // ---- C09 ----
 func genC09(e *emitter, r *rng, tier string) {
-	n := budget(tier, 8000, 200000)
+	n := budget(tier, 8000, 60000)
 	for i := 0; i < n; i++ {
 		k := 1 + r.intn(3)
 		var dg []byte
